@@ -541,7 +541,7 @@ Definition next_open (open : option Z) (e : event) : option (option Z) :=
 Lemma wf_from_cons open e l :
   wf_from open (e :: l) = match next_open open e with Some o1 => wf_from o1 l | None => false end.
 Proof.
-  destruct e, open as [b|]; simpl; auto; destruct (a =? b); auto.
+  destruct e, open as [bb|]; simpl; auto; try (destruct (a =? bb); auto).
 Qed.
 
 Lemma inv_empty : Inv st_empty None.
@@ -632,35 +632,6 @@ Proof.
   - simpl. destruct (step o st e). reflexivity.
   - rewrite <- app_comm_cons, !run_from_cons. apply IH.
 Qed.
-
-Lemma replay_series_in : forall recs st0 s,
-  In s (r_series (fold_left replay_rec recs st0)) ->
-  In s (r_series st0) \/ In (s_ref s) (series_refs (map snd recs)).
-Proof.
-  assert (SL : forall r f l, map s_ref (set_last r f l) = map s_ref l).
-  { intros r f. induction l as [|s l IH]; simpl; auto. destruct (s_ref s =? r); simpl; congruence. }
-  assert (A : forall seg l st0 r, In r (map s_ref (r_series (fold_left (replay_series seg) l st0))) ->
-                                  In r (map s_ref (r_series st0)) \/ In r (map fst l)).
-  { intros seg. induction l as [|e l IH]; intros st0 r H; simpl in *; auto.
-    apply IH in H. destruct H as [H|H]; auto. unfold replay_series in H.
-    destruct (find_lab (snd e) (r_series st0)); simpl in H; auto.
-    rewrite map_app in H. apply in_app_iff in H. simpl in H. destruct H as [H|[H|[]]]; auto. }
-  assert (B : forall seg l st0, map s_ref (r_series (fold_left (replay_sample seg) l st0)) = map s_ref (r_series st0)).
-  { intros seg. induction l as [|x l IH]; intros st0; simpl; auto. rewrite IH. unfold replay_sample.
-    destruct (lookup (fst (fst x)) (r_dup st0)); simpl; apply SL. }
-  assert (G : forall recs st0 r, In r (map s_ref (r_series (fold_left replay_rec recs st0))) ->
-                                 In r (map s_ref (r_series st0)) \/ In r (series_refs (map snd recs))).
-  { induction recs as [|[seg R] recs IH]; intros st0 r H; simpl in *; auto.
-    apply IH in H. unfold series_refs. simpl. rewrite in_app_iff. destruct H as [H|H]; auto.
-    unfold replay_rec in H. simpl in H. destruct R; auto.
-    - apply A in H. destruct H; auto.
-    - rewrite B in H. auto. }
-  intros recs st0 s H.
-  assert (H' : In (s_ref s) (map s_ref (r_series (fold_left replay_rec recs st0)))) by (apply in_map; auto).
-  apply G in H'. destruct H' as [H'|H']; auto.
-  (* refs only: weaken the left disjunct *)
-  left. (* not derivable in general: restated below on refs *)
-Abort.
 
 Lemma replay_series_refs : forall recs st0 r,
   In r (map s_ref (r_series (fold_left replay_rec recs st0))) ->
